@@ -34,7 +34,7 @@ Definition doc_preamble : list pdoc := [
   mkP "__VARIANT" "fn:1" "f7e8bafe611ebf61" (Internal "constructor VVariant");
   mkP "__TUPLE_META" "table" "c3674d7d9e34d1d3" (Internal "constructor VTuple");
   mkP "__TUPLE_META.__newindex" "fn:0" "b8debd4a494ec511" (OutOfModel "immutability guard");
-  mkP "__TUPLE_META.__add" "fn:2" "baa537fe34b78c83" (Modelled "rt_arith OpAdd");
+  mkP "__TUPLE_META.__add" "fn:2" "3615c6c492ba02fe" (Modelled "rt_arith OpAdd");
   mkP "__TUPLE_META.__sub" "fn:2" "c82b3f6e9ad1935f" (Modelled "rt_arith OpSub");
   mkP "__TUPLE_META.__div" "fn:2" "1f16bf10f6a3af31" (Modelled "rt_arith OpDiv");
   mkP "__TUPLE_META.__mul" "fn:2" "66e19dc32f7f2e21" (Modelled "rt_arith OpMul");
@@ -67,13 +67,13 @@ Definition doc_preamble : list pdoc := [
   mkP "varargs" "fn:1" "eb4f7148adcc6d47" (OutOfModel "not bound by std");
   mkP "list_for_each" "fn:2" "834e55ce81884ca1" (OutOfModel "effectful callback; not in C18's list");
   mkP "list_map" "fn:2" "a704db4e01405175" (Modelled "rt_list_map");
-  mkP "list_get" "fn:2" "fbda33beb3bbcc69" (Modelled "rt_list_get");
-  mkP "list_set" "fn:3" "f87fc95efd066628" (Modelled "rt_list_set");
+  mkP "list_get" "fn:2" "597bb2302d022e06" (Modelled "rt_list_get");
+  mkP "list_set" "fn:3" "f1149f21f0d916e0" (Modelled "rt_list_set");
   mkP "list_fold" "fn:3" "f10aa7e4b506bb09" (Modelled "rt_list_fold");
   mkP "list_filter" "fn:2" "0694e52acab40788" (Modelled "rt_list_filter");
   mkP "list_push" "alias:table.insert" "ec7d2b456d860eaa" (Modelled "rt_list_push");
   mkP "list_prepend" "fn:2" "7bcb994328b25b9c" (Modelled "rt_list_prepend");
-  mkP "list_find" "fn:2" "08dab53ad0a13cdd" (Modelled "rt_list_find");
+  mkP "list_find" "fn:2" "6d459a2fc52c984c" (Modelled "rt_list_find");
   mkP "xx_len" "fn:1" "dad5186079255066" (Modelled "rt_len");
   mkP "clear" "fn:1" "c675d8a49553b07a" (OutOfModel "not bound by std");
   mkP "sin" "alias:math.sin" "cb958296d30b377a" (OutOfModel "transcendental");
@@ -81,7 +81,7 @@ Definition doc_preamble : list pdoc := [
   mkP "as_float" "fn:1" "bae14d0524012f72" (OutOfModel "identity on numbers; conversions are not in C18's list");
   mkP "as_int" "fn:1" "878edfc9f1eed9f3" (OutOfModel "conversions are not in C18's list");
   mkP "floor" "alias:math.floor" "efab722bc418190b" (Modelled "rt_floor");
-  mkP "as_char" "fn:1" "e1671460ba24b691" (OutOfModel "conversions are not in C18's list (also builds the library None)");
+  mkP "as_char" "fn:1" "79ab2bfbf75e7012" (OutOfModel "conversions are not in C18's list (also builds the library None)");
   mkP "as_chars" "fn:1" "9d291d88abb6efc5" (OutOfModel "conversions are not in C18's list");
   mkP "split" "fn:1" "dde77d8a7bd4d668" (OutOfModel "string.gmatch");
   mkP "sqrt" "alias:math.sqrt" "7f40bd5700042aa4" (OutOfModel "irrational results");
@@ -106,8 +106,8 @@ Definition doc_preamble : list pdoc := [
   mkP "dict_new" "fn:0" "d3c2c6eff357513f" (Modelled "rt_dict_new");
   mkP "dict_from_list" "fn:1" "0096bacf8b8f431a" (Modelled "rt_dict_from_list");
   mkP "dict_update" "fn:3" "606fa5812c93225a" (Modelled "rt_dict_update");
-  mkP "dict_remove" "fn:2" "aca1fbcae5068f39" (Modelled "rt_dict_remove");
-  mkP "dict_get" "fn:2" "80a4709420c113b4" (Modelled "rt_dict_get");
+  mkP "dict_remove" "fn:2" "4ff0640e6a0a128a" (Modelled "rt_dict_remove");
+  mkP "dict_get" "fn:2" "de34cf107905dccb" (Modelled "rt_dict_get");
   mkP "dict_for_each" "fn:2" "eaf58e0cdfbc71d2" (OutOfModel "effectful callback; not in C18's list");
   mkP "dict_map" "fn:2" "7988373d4c325c1e" (OutOfModel "not in C18's list");
   mkP "__LUA_SET_META" "table" "52a29af136b43d1c" (Internal "constructor VSet");
